@@ -515,7 +515,7 @@ def run(chk: Check) -> int:
     rep = a_ok
     chk.log(f"F2 probe on the real class: F2a {'repaired' if a_ok else 'present'}, F2b {'repaired' if b_ok else 'present'}"
             f" -> model run with repaired={rep}")
-    ncases = 260 if chk.quick else 2500
+    ncases = 600 if chk.quick else 5000
     maxlen = 28 if chk.quick else 70
     cases, metas = [], []
     hist_ops, sizes, kinds, stops, strat_iter = {}, {}, {}, {}, {}
@@ -563,7 +563,7 @@ def run(chk: Check) -> int:
         kind = rng.choice(["l1d", "l1d", "l1d", "avg", "seq", "lnd"])
         spec = {"kind": kind, "nchild": rng.choice([1, 2, 3, 3, 4, 5]), "strategy": rng.choice(STRATS),
                 "npseed": rng.randrange(10 ** 6), "koff": rng.randrange(8),
-                "size": rng.choice([3, 5]) if (kind == "seq" and rng.random() < 0.15) else 60}
+                "size": rng.choice([2, 3, 5, 8]) if (kind == "seq" and rng.random() < 0.35) else 60}
         ml = maxlen if kind != "lnd" else min(maxlen, 22)
         res = drive(spec, gen_history(rng, ml, rng.random() < 0.06), rng)
         add(spec, res, f"seed{chk.seed}/{k}")
